@@ -255,6 +255,12 @@ def make_perf(asc, seed):
         k += 1
         notes.append({"id": pid, "midi_pitch": mp, "note_on": max(0.0, on), "note_off": max(0.01, off), "velocity": rng.randrange(20, 110), "track": 0, "channel": rng.choice((0, 0, 1))})
         align.append({"label": "match", "score_id": nid, "performance_id": pid})
+        if rng.random() < 0.08 and mp + 2 <= 108:
+            # an ornament note played on top of the score note (its alignment entry names the score note as well)
+            pid2 = "p%d" % k
+            k += 1
+            notes.append({"id": pid2, "midi_pitch": mp + 2, "note_on": max(0.0, on) + 0.01, "note_off": max(0.0, on) + 0.04, "velocity": 40, "track": 0, "channel": 0})
+            align.append({"label": "ornament", "score_id": nid, "performance_id": pid2, "type": rng.choice(("trill", "mordent", "generic_ornament"))})
     if rng.random() < 0.5 or not notes:
         notes.append({"id": "p%d" % k, "midi_pitch": 60, "note_on": 0.1, "note_off": 0.3, "velocity": 64, "track": 0, "channel": 0})
         align.append({"label": "insertion", "performance_id": "p%d" % k})
